@@ -47,3 +47,28 @@ func init() {
 		return graphfam.GenParamServerStress(*out, *seed, *n, *clients, *ops)
 	}
 }
+
+func init() {
+	commands["ge-exec"] = func(args []string) error {
+		fs := flag.NewFlagSet("ge-exec", flag.ExitOnError)
+		in := fs.String("in", "", "histories ndjson")
+		out := fs.String("out", "", "trace ndjson")
+		_ = fs.Parse(args)
+		return graphfam.RunGraphEdit(*in, *out)
+	}
+	commands["ge-random"] = func(args []string) error {
+		fs := flag.NewFlagSet("ge-random", flag.ExitOnError)
+		out := fs.String("out", "", "histories ndjson")
+		seed := fs.Int64("seed", 1, "seed")
+		n := fs.Int("n", 10, "histories")
+		steps := fs.Int("steps", 60, "steps")
+		_ = fs.Parse(args)
+		return graphfam.GenGraphEdit(*out, *seed, *n, *steps)
+	}
+	commands["ge-files"] = func(args []string) error {
+		fs := flag.NewFlagSet("ge-files", flag.ExitOnError)
+		out := fs.String("out", "", "trace ndjson")
+		_ = fs.Parse(args)
+		return graphfam.RunGraphFiles(fs.Args(), *out)
+	}
+}
